@@ -13,6 +13,7 @@
         `outside`: the program is not in the common fragment.  <answer> ::= ok <ty> <bits> | none
     c01 t5mir <hex sexp>                     →  outside | <fn 0> || <fn 1> || …   (as `c08 mir`)
         the structured MIR of every function of the resolved program, laid out as a CFG
+    c01 lir <hex text>                       →  the LIR lowering model on real MIR (see Driver/C01Lir.lean)
     c01 dce <cfg>                            →  ok <cfg> | panic | fuel
         the Lean model of `mir/dead_code.rs` (`RotoV.Dce.dce`) on a CFG skeleton:
         <cfg> ::= <block>;<block>;…     <block> ::= <label>:<ins>,<ins>,…
@@ -36,6 +37,7 @@ import RotoV.Model.Dce
 import RotoV.Model.C01Resolve
 import RotoV.Model.C01MirRun
 import Driver.C08
+import Driver.C01Lir
 
 namespace Driver.C01
 open RotoV hiding Ty BinOp
@@ -273,6 +275,7 @@ def handle (args : List String) : String :=
     match parseProg hex with
     | none => "bad-program"
     | some fns => handleT5 fns (splitTuples rest)
+  | ["lir", hex] => Driver.C01Lir.handle hex
   | ["t5mir", hex] =>
     match parseProg hex with
     | none => "bad-program"
